@@ -761,6 +761,21 @@ class Gen:
             ex[12:16] = d.u32(flags & 0xffffffff)
             d.stream(ST["exception"], bytes(ex))
             self.dump("exception_code_product", d.finish())
+        # (a2) EXC_RESOURCE / EXC_GUARD: type (flags bits 29..31) x 64-bit code layout (resource: flavor bits 58..60, guard: flavor bits 32..60)
+        guard_shapes = [(f << 32) | x for f in (0, 1, 2, 3, 4, 8, 16, 32, 64, 128, 256, 512, 1 << 12, 1 << 20, 1 << 28, 0x1fffffff) for x in (0, 1, 0xfffffff)]
+        k = 0
+        for code in (11, 12):
+            for ty in range(8):
+                for shape in shapes + guard_shapes:
+                    k += 1
+                    if self.tier == "quick" and k % 4:
+                        continue
+                    d = Dump(k % 8 == 0, ndir=2)
+                    d.stream(ST["system_info"], d.sysinfo([9, 12, 0, 5][k % 4], platform=[0x8101, 0x8102][k % 2]))
+                    ex = bytearray(d.exception(1, code=code, nparams=[3, 2, 0, 15][k % 4], info=[code, shape, [0, 7, T64 - 1][k % 3]] + [0] * 12))
+                    ex[12:16] = d.u32((ty << 29) | [0, 1, 0x1fffffff][k % 3])
+                    d.stream(ST["exception"], bytes(ex))
+                    self.dump("mac_resource_guard_product", d.finish())
         # (b) memory_range / last_error / crash address at both ends of the address space
         edges = [0, 1, 0xffffffff, 1 << 32, T64 - 105, T64 - 104, T64 - 53, T64 - 52, T64 - 17, T64 - 16, T64 - 2, T64 - 1]
         sizes = [0, 1, 2, 15, 16, 17, 104, 0xffffffff, 1 << 32, T64 - 1]
@@ -781,6 +796,37 @@ class Gen:
                 info = [1, base] + [0] * 13
                 d.stream(ST["exception"], d.exception(1, code=[0xC0000005, 0xC0000006, 0xC0000409, 11][i % 4], nparams=[2, 1, 2, 0xffffffff, 0][i % 5], addr=edges[-1 - i], info=info))
                 self.dump("query_edge_product", d.finish())
+            # Memory64 lists that PARSE: 1..4 regions, sizes incl. 0, bases at both ends of the address space, data exactly to the end of the file or not
+            for n in (1, 2, 3, 4):
+                for bi, base in enumerate((0, 0x10000, 1 << 32, T64 - 256, T64 - 65, T64 - 64)):
+                    for szs in ((16,) * n, (0,) + (16,) * (n - 1), (16,) * (n - 1) + (0,), (1, 7, 8, 9)[:n]):
+                        d = Dump(be, ndir=2)
+                        d.stream(ST["system_info"], d.sysinfo([9, 0, 12][bi % 3]))
+                        hdr_at = len(d.buf)
+                        data_at = hdr_at + 16 + 16 * n
+                        descs, a = b"", base
+                        for z in szs:
+                            descs += d.u64(a % T64, z)
+                            a += z if bi % 2 else max(z, 1)      # adjacent, or overlapping by nothing / touching
+                        d.stream(ST["memory64"], d.u64(n, data_at) + descs)
+                        d.add(bytes(range(sum(szs))) + (b"" if n % 2 else b"tail"), align=1)
+                        self.dump("memory64_valid_product", d.finish())
+            # Linux maps: address order, width, permissions, missing fields, names
+            lines = [b"00400000-00410000 r-xp 00000000 08:01 42 /bin/x", b"00410000-00400000 r-xp 00000000 08:01 42 /bin/reversed",
+                     b"00400000-00400000 rw-p 00000000 00:00 0", b"ffffffffffffffff-ffffffffffffffff r--p 00000000 00:00 0 [top]",
+                     b"0-ffffffffffffffff rwxp 0 0:0 0", b"ffffffffffffff00-0 ---p 00000000 00:00 0", b"7f00-7f01 rwxs ffffffffffffffff ff:ff 18446744073709551615 /x (deleted)",
+                     b"00400000-00410000 r-xp 00000000 08:01 42 " + b"A" * 300, b"00400000-00410000 r-xp", b"zz-yy r-xp 0 0:0 0", b"10000000000000000-10000000000000001 r-xp 0 0:0 0",
+                     b"00400000-00410000 r-xp 00000000 08:01 42 /a b c", b"00405000-0040f000 rw-p 00001000 08:01 42 /overlap", b"", b"\xff\xfe-\x00 bad"]
+            for i in range(len(lines)):
+                for j in range(len(lines)):
+                    if (i + 2 * j) % 3 and i != j:
+                        continue
+                    for nl in (b"\n", b"\r\n"):
+                        d = Dump(be, ndir=3)
+                        d.stream(ST["system_info"], d.sysinfo(9, platform=0x8201))
+                        d.stream(ST["linux_maps"], lines[i] + nl + lines[j] + (nl if j % 2 else b""))
+                        d.stream(ST["memory_info"], d.exlist([d.u64(0x400000, 0x400000) + d.u32(4, 0) + d.u64(0x8000) + d.u32(0x1000, 4, 0x20000, 0)], 48, hdr=16, wide=True))
+                        self.dump("linux_maps_product", d.finish())
             # Memory64 regions whose base + size reaches / passes the top of the address space
             for base in (0, T64 - 64, T64 - 33, T64 - 32, T64 - 1):
                 d = Dump(be, ndir=2)
@@ -814,6 +860,61 @@ class Gen:
                         d.stream(ST["memory_list"], d.list([d.u64(0x7000) + d.u32(size, at)]))
                         d.stream(ST["exception"], d.exception(1, ctx=loc))
                         self.dump("location_content_product", d.finish())
+
+    # ------------------------------------------------------------- round 4: UTF-16 strings ending at / just past the end of the file, per reference site
+    def utf16_edge_product(self):
+        """The string blob is the last thing in the file: A payload bytes follow the u32 size word, and the size word says A + delta.
+        Reference site (who holds the RVA) x A x delta x byte order; the streams come first so that only the string is cut."""
+        for be in (False, True):
+            for site in ("module", "unloaded", "thread_name", "handle_type", "handle_object", "csd", "bootargs"):
+                for avail in (0, 1, 2, 3, 8, 9):
+                    for delta in (-2, -1, 0, 1, 2, 3, 4):
+                        if avail + delta < 0:
+                            continue
+                        d = Dump(be, ndir=3)
+                        # every stream is written with a placeholder RVA first; the string is appended last and the RVA patched in
+                        fix = []
+
+                        def hole(width=4):
+                            fix.append((len(stream), width))
+                            return b"\0" * width
+                        stream = bytearray()
+                        if site == "module":
+                            ty = ST["module_list"]
+                            stream += d.u32(1) + d.u64(0x400000) + d.u32(0x1000, 0, 0x5000_0001)
+                            stream += hole() + d.u32(0xfeef04bd, 0x10000, 1, 2, 3, 4, 0x3f, 0, 4, 1, 0, 0, 0) + d.u32(0, 0, 0, 0) + d.u64(0, 0)
+                        elif site == "unloaded":
+                            ty = ST["unloaded"]
+                            stream += d.u32(12, 24, 1) + d.u64(0x500000) + d.u32(0x1000, 0, 0)
+                            stream += hole()
+                        elif site == "thread_name":
+                            ty = ST["thread_names"]
+                            stream += d.u32(1) + d.u32(7)
+                            stream += hole(8)
+                        elif site in ("handle_type", "handle_object"):
+                            ty = ST["handle"]
+                            stream += d.u32(16, 32, 1, 0) + d.u64(4)
+                            stream += hole() if site == "handle_type" else d.u32(0)
+                            stream += hole() if site == "handle_object" else d.u32(0)
+                            stream += d.u32(1, 2, 3, 4)
+                        elif site == "csd":
+                            ty = ST["system_info"]
+                            si = d.sysinfo(9)
+                            stream += si[:24]
+                            stream += hole()
+                            stream += si[28:]
+                        else:
+                            ty = ST["mac_boot"]
+                            stream += d.u32(ST["mac_boot"])
+                            stream += hole(8)
+                        if site != "csd":
+                            d.stream(ST["system_info"], d.sysinfo(9))
+                        srva = d.stream(ty, bytes(stream))
+                        units = (b"a\0" if not be else b"\0a") * 8
+                        rva = d.add(d.u32(avail + delta) + units[:avail], align=2)
+                        for off, width in fix:
+                            d.buf[srva + off:srva + off + width] = d.u32(rva) if width == 4 else d.u64(rva)
+                        self.dump("utf16_edge_product", d.finish())
 
     # ------------------------------------------------------------- base dumps from minidump-synth and /repo/testdata
     def synth_and_samples(self, per_synth, per_sample):
@@ -929,6 +1030,7 @@ class C01(PropBase):
         g.round3()
         g.round4(1500 if q else 24000)
         g.location_content_product()
+        g.utf16_edge_product()
         g.synth_and_samples(700 if q else 8000, 160 if q else 2500)
         g.random_bytes(200 if q else 3000)
         # the runner shards the case list into NCPU contiguous ranges: deal the cases round-robin so that every shard gets the
